@@ -69,7 +69,7 @@ def run(tier, lab):
     r1 = lib.tlc("MC_Ports", timeout=240, constants={"NEntries": "1", "MaxPorts": "1", "Sim": "FALSE"})
     lib.tlc_must_pass(r1, "Ports single-entry exhaustive (ListenedExactly, ReachUnique)")
     ck.add_tlc(r1, "Ports: every single [[port]] entry over 21 port strings x port/ports keys x 10 service lists, exhaustive")
-    n = 300 if tier == "quick" else 5000
+    n = 300 if tier == "quick" else 20000
     r2 = lib.tlc("MC_Ports", timeout=240, constants={"NEntries": "4", "MaxPorts": "1", "Sim": "TRUE"}, simulate=n, depth=6,
                  tlc_seed=lib.seed(), workers=1)
     lib.tlc_must_pass(r2, "Ports multi-entry simulate")
